@@ -87,8 +87,12 @@ B64DecodeRaw(w, strict) ==
       canon == IF rem = 2 THEN B64Val(w[n]) % 16 = 0 ELSE IF rem = 3 THEN B64Val(w[n]) % 4 = 0 ELSE TRUE
   IN IF ~okc \/ rem = 1 \/ (strict /\ ~canon) THEN <<FALSE, <<>>>>
      ELSE <<TRUE, FlattenSeq([k \in 1..full |-> q(k-1)]) \o tail>>
-\* padding-indifferent decode
-B64Decode(w) == B64DecodeRaw(StripPad(w), TRUE)
+\* padding-indifferent decode: unpadded, or padded correctly to a multiple of four (RFC 4648 section 4);
+\* anything else (stray or wrong number of '=') is not base64
+B64Decode(w) == LET sp == StripPad(w) pads == Len(w) - Len(sp) IN
+                IF pads = 0 THEN B64DecodeRaw(w, TRUE)
+                ELSE IF Len(w) % 4 = 0 /\ ((Len(sp) % 4 = 2 /\ pads = 2) \/ (Len(sp) % 4 = 3 /\ pads = 1)) THEN B64DecodeRaw(sp, TRUE)
+                ELSE <<FALSE, <<>>>>
 B64DecodeLenient(w) == B64DecodeRaw(StripPad(w), FALSE)
 \* canonical unpadded encoding
 B64EncodeNoPad(bs) ==
@@ -190,7 +194,8 @@ BytesSelfTest ==
   /\ PctDecode(<<97,37,50,48,98,37,50,53,99,37,67,51,37,65,57>>) = <<97,32,98,37,99,195,169>>
   /\ Utf8OK(<<97,195,169,240,159,152,128>>) /\ ~Utf8OK(<<255>>) /\ ~Utf8OK(<<195>>) /\ ~Utf8OK(<<237,160,128>>)
   /\ B64Decode(<<65,65,73,68>>) = <<TRUE, <<0,2,3>>>> /\ B64Decode(<<65,65,73>>) = <<TRUE, <<0,2>>>>
-  /\ B64Decode(<<65,65,73,61>>) = <<TRUE, <<0,2>>>> /\ B64Decode(<<33>>)[1] = FALSE
+  /\ B64Decode(<<65,65,73,61>>) = <<TRUE, <<0,2>>>> /\ B64Decode(<<33>>)[1] = FALSE /\ B64Decode(<<61>>)[1] = FALSE
+  /\ B64Decode(<<65,65,61>>)[1] = FALSE /\ B64DecodeLenient(<<65,65,61>>) = <<TRUE, <<0>>>>
   /\ B64EncodeNoPad(<<0,2,3>>) = <<65,65,73,68>> /\ B64EncodeNoPad(<<0,2>>) = <<65,65,73>> /\ B64EncodePad(<<0>>) = <<65,65,61,61>>
   /\ DivSmall(<<3,6,0,0>>, 60) = <<6,0>> /\ DivSmall(<<3,5,9,9>>, 3600) = <<0>> /\ MulSmall(<<9,9>>, 3600) = <<3,5,6,4,0,0>>
   /\ LeqDigits(<<9,9>>, <<1,0,0>>) /\ ~LeqDigits(<<1,0,1>>, <<1,0,0>>) /\ AddDigits(<<9,9>>, <<1>>) = <<1,0,0>>
